@@ -172,15 +172,24 @@ def main(tier):
     cg = structq.CallGraph(whole)
     writes = {}
     for root in ("GMGPolar::setup", "GMGPolar::solve"):
-        seen, st = set(), [root]
+        # reachability over (name, number of arguments): a getter and a setter of one name are different functions
+        seen, st = set(), [(root, 0)]
         while st:
-            q = st.pop()
-            if q in seen:
+            q, na = st.pop()
+            if (q, na) in seen:
                 continue
-            seen.add(q)
-            st.extend(c for c in cg.callees.get(q, ()) if c.startswith("GMGPolar::"))
-        for q in seen:
+            seen.add((q, na))
             for f in whole.fns(q):
+                if len(f["params"]) != na:
+                    continue
+                for c in structq.calls_in(f["body"]):
+                    cq = structq.callee_of(c)
+                    if cq.startswith("GMGPolar::"):
+                        st.append((cq, len(c.get("args", []))))
+        for q, na in sorted(seen):
+            for f in whole.fns(q):
+                if len(f["params"]) != na:
+                    continue
                 for n in ir.walk(f["body"]):
                     tgt = None
                     if n.get("k") == "Assign":
